@@ -40,6 +40,22 @@ Proof.
   first [ discriminate H1 | discriminate H2 | (vm_compute; reflexivity) ].
 Qed.
 
+(** with the user's CTEs renamed when the frame is built, the chain-capture history agrees with the spec *)
+Lemma gen_hashed_ctes_example : c_hash_user_ctes gen_cfg = true ->
+  let unit := FVal (mkFrame [] [[]]) in
+  let f0 := mkFrame ["a"; "b"] [[VInt 1; VInt 2]; [VInt 3; VInt 4]] in
+  agree gen_cfg [] [f0]
+    [SReg "v" 0;
+     SSql (mkQuery [("c1", QSel (FName "v") [] (Some [(ECol "a", "a")]) false)]
+                   (QSel (FName "c1") [] (Some [(ECol "a", "a")]) false));
+     SReg "w" 1;
+     SSql (mkQuery [("c1", QSel unit [] (Some [(ELit (VInt 7), "a")]) false)]
+                   (QSel (FJoin (FName "w") "x" (FName "c1") "y" (EBin Eq (ELit (VInt 1)) (ELit (VInt 1)))) []
+                         (Some [(ECol "x.a", "a"); (ECol "y.a", "a2")]) false))] = true.
+Proof.
+  intros H1. vm_compute in H1. first [ discriminate H1 | (vm_compute; reflexivity) ].
+Qed.
+
 (** * the property at full strength: on every history (register / re-register / table / sql / where /
     join back / observe, any length, any names and case variants, any query of the language) the
     implementation's model and the value semantics observe the same at every step *)
@@ -118,8 +134,8 @@ Proof. vm_compute. split; reflexivity. Qed.
     [cfg_ok] (and has the flag the defect depends on), hence for the one read from the source. *)
 Ltac all_cfgs :=
   let c := fresh "c" in let Hok := fresh "Hok" in
-  intros c Hok; destruct c as [a f cp vf rn tn af so uo]; unfold cfg_ok in Hok; simpl in Hok;
-  destruct a, f, cp, vf, rn, tn, af, so, uo; simpl in *; try discriminate.
+  intros c Hok; destruct c as [a f cp vf rn tn af so uo hu]; unfold cfg_ok in Hok; simpl in Hok;
+  destruct a, f, cp, vf, rn, tn, af, so, uo, hu; simpl in *; try discriminate.
 
 Definition star_of n := mkQuery [] (QSel (FName n) [] None false).
 
@@ -138,8 +154,9 @@ Theorem C13_refuted_cte_hijack : forall c, cfg_ok c = true -> c_skip_own_ctes c 
 Proof. all_cfgs; intros _; vm_compute; reflexivity. Qed.
 
 (** a view built by session.sql keeps the user's CTE name in its chain; a later query with a CTE of
-    that name replaces the view's inner CTE: wrong rows, no error *)
-Theorem C13_refuted_chain_capture : forall c, cfg_ok c = true ->
+    that name replaces the view's inner CTE: wrong rows, no error -- as long as session.sql does not give the
+    user's CTEs their hash names when it builds the frame *)
+Theorem C13_refuted_chain_capture : forall c, cfg_ok c = true -> c_hash_user_ctes c = false ->
   agree c ex_tables [ex_f0; ex_f1]
     [SReg "v" 0;
      SSql (mkQuery [("c1", QSel (FName "v") [] (Some [(ECol "a", "a")]) false)]
@@ -147,7 +164,7 @@ Theorem C13_refuted_chain_capture : forall c, cfg_ok c = true ->
      SReg "w" 2;
      SSql (mkQuery [("c1", QSel ex_unit [] (Some [(ELit (VInt 7), "a")]) false)]
                    (QSel (FName "w") [] (Some [(ECol "a", "a")]) false))] = false.
-Proof. all_cfgs; vm_compute; reflexivity. Qed.
+Proof. all_cfgs; intros _; vm_compute; reflexivity. Qed.
 
 (** SELECT * over a table the cache has not seen: the frame's column list is the star *)
 Theorem C13_refuted_star_columns : forall c, cfg_ok c = true ->
@@ -169,7 +186,7 @@ Proof. all_cfgs; vm_compute; reflexivity. Qed.
 
 Theorem C13_full_is_false : ~ C13_full.
 Proof.
-  intro H. pose proof (C13_refuted_chain_capture gen_cfg gen_cfg_ok) as R.
+  intro H. pose proof (C13_refuted_unresolved_column gen_cfg gen_cfg_ok) as R.
   rewrite H in R. discriminate.
 Qed.
 Print Assumptions C13_refuted_stale_cache.
